@@ -18,7 +18,7 @@ LEVEL = "translation_validation"
 QUICK_PAIRS = [(0, 1), (1, 0), (3, 3), (6, 7), (9, 10), (5, 5)]
 
 
-def cl_paths(cm, v, d, s):
+def cl_paths(cm, v, d, s, sequential=True):
     paths, problems = [], []
     for p in cm.paths(v, d, s):
         if p["err"] == "panic":
@@ -32,6 +32,14 @@ def cl_paths(cm, v, d, s):
             problems.append("unrecognised-construct: %s" % str(e)[:160])
             continue
         for conds, regs, stores, atomics in clmodel.split(r):
+            # single-threaded reading (indivisibility is C18's business): store(a, load(a) + x) is an add to memory
+            st2, at2 = [], list(atomics)
+            for w, a, x in stores:
+                if sequential and isinstance(x, tuple) and x and x[0] == "op" and x[1] == "add" and ("load", w, a) in (x[3], x[4]):
+                    at2.append((w, a, x[4] if x[3] == ("load", w, a) else x[3]))
+                else:
+                    st2.append((w, a, x))
+            stores, atomics = st2, at2
             ex = r["exit"]
             base = list(p["conds"]) + conds
             init = {T.K(64, k): ("sel", clmodel.REG, T.K(64, k), 64) for k in range(11)}
